@@ -140,3 +140,92 @@ def mesh_literals(vertices, cells):
 
 MESH_LET = ("let junc := fun v => memZ v {juncs} in let ncells := assoc_def 0 {ncells} in "
             "let ownc := assoc_def [] {own_cells} in let owne := assoc_def [] {own_edges} in let cells := {cells} in ")
+
+
+# ---------------------------------------------------------------- solver capture (no source hook: proxies in this process)
+class _Recorder:
+    def __init__(self):
+        self.calls = []   # dicts: {"solver": name, "A": ndarray, "b": ndarray, "x": ndarray or None, "error": str or None}
+
+
+class _ScopProxy:
+    def __init__(self, real, rec):
+        self._real, self._rec = real, rec
+
+    def __getattr__(self, k):
+        return getattr(self._real, k)
+
+    def nnls(self, A, b, *a, **kw):
+        try:
+            r = self._real.nnls(A, b, *a, **kw)
+        except Exception as ex:
+            self._rec.calls.append({"solver": "nnls", "A": np.array(A, dtype=float), "b": np.array(b, dtype=float), "x": None, "error": repr(ex)})
+            raise
+        self._rec.calls.append({"solver": "nnls", "A": np.array(A, dtype=float), "b": np.array(b, dtype=float), "x": np.array(r[0], dtype=float), "error": None})
+        return r
+
+    def lsq_linear(self, A, b, *a, **kw):
+        try:
+            r = self._real.lsq_linear(A, b, *a, **kw)
+        except Exception as ex:
+            self._rec.calls.append({"solver": "lsq_linear", "A": np.array(A, dtype=float), "b": np.array(b, dtype=float), "x": None, "error": repr(ex)})
+            raise
+        self._rec.calls.append({"solver": "lsq_linear", "A": np.array(A, dtype=float), "b": np.array(b, dtype=float), "x": np.array(r["x"], dtype=float), "error": None})
+        return r
+
+
+class _LinalgProxy:
+    def __init__(self, real, rec):
+        self._real, self._rec = real, rec
+
+    def __getattr__(self, k):
+        return getattr(self._real, k)
+
+    def inv(self, A):
+        try:
+            r = self._real.inv(A)
+        except Exception as ex:
+            self._rec.calls.append({"solver": "inv", "A": np.array(A, dtype=float), "b": None, "x": None, "error": type(ex).__name__})
+            raise
+        self._rec.calls.append({"solver": "inv", "A": np.array(A, dtype=float), "b": None, "x": None, "inv": r, "error": None})
+        return r
+
+
+class _NpProxy:
+    def __init__(self, real, rec):
+        self._real = real
+        self.linalg = _LinalgProxy(real.linalg, rec)
+
+    def __getattr__(self, k):
+        return getattr(self._real, k)
+
+
+@contextlib.contextmanager
+def capture_solvers():
+    """record every call ForceMatrix.solve makes to scipy.optimize.nnls / lsq_linear, numpy.linalg.inv and lmfit.minimize"""
+    rec = _Recorder()
+    old_scop, old_np = fmatrix.scop, fmatrix.np
+    fmatrix.scop = _ScopProxy(old_scop, rec)
+    fmatrix.np = _NpProxy(old_np, rec)
+    try:
+        import lmfit
+        old_min = lmfit.minimize
+
+        def minimize(fcn, params, args=(), **kw):
+            try:
+                sol = old_min(fcn, params, args=args, **kw)
+            except Exception as ex:
+                rec.calls.append({"solver": "lmfit", "A": np.array(args[0], dtype=float), "b": np.array(args[1], dtype=float), "x": None, "error": repr(ex)[:200]})
+                raise
+            rec.calls.append({"solver": "lmfit", "A": np.array(args[0], dtype=float), "b": np.array(args[1], dtype=float),
+                              "x": np.array([sol.params[n].value for n in sol.params], dtype=float), "error": None})
+            return sol
+        lmfit.minimize = minimize
+    except ImportError:
+        lmfit = None
+    try:
+        yield rec
+    finally:
+        fmatrix.scop, fmatrix.np = old_scop, old_np
+        if lmfit is not None:
+            lmfit.minimize = old_min
